@@ -205,7 +205,9 @@ class Check(PropertyCheck):
                   "streams), proved by one invariant through every iteration of the resume loop (reach_inv): id_maps_inverse "
                   "(+ injective), no_stream_lost_or_duplicated (passed-on ++ queued = submitted, per stream, in order, on the "
                   "stream's own upstream id; no_stream_lost_on_close), queue_fifo (opened ++ queued = arrival order), "
-                  "queue_nonempty_implies_no_capacity, open_le_limit, response_routed; and about BufferedH2Connection's send "
+                  "queue_nonempty_implies_no_capacity (stated against hyper-h2's count of open streams, i.e. the "
+                  "server's — reset_frees_slot: a stream the proxy resets itself stops counting at once), open_le_limit, "
+                  "response_routed; and about BufferedH2Connection's send "
                   "buffers for all windows / frame sizes: buffered_bytes_conserved (send_data incl. frame-size splitting, "
                   "the flush loop, stream_window_updated), buffered_bytes_conserved_connection (connection_window_updated: the "
                   "round robin over all buffers, any number of rounds — so every entry point of BufferedH2Connection is "
@@ -217,7 +219,9 @@ class Check(PropertyCheck):
                   "segmented multi-stream scripts (frames written incl. their sizes, events passed up with their ids, queue, "
                   "id map, open streams, buffers compared after every call), and by direct differential runs of "
                   "BufferedH2Connection; the property itself is checked on what two independent, self-accounting h2 peers "
-                  "decode (per-stream content, order of opening, concurrency limit, flow-control windows).")
+                  "decode (per-stream content, order of opening, concurrency limit, flow-control windows), incl. the "
+                  "liveness clause that no complete request is left waiting while the server — by its own count against the "
+                  "limit it announced, which some scripts never raise — has a free slot.")
     level_note = ("trusted / not proved: hyper-h2/hpack (framing, stream state machine, flow-control accounting) — the model takes "
                   "the EVENTS h2 reports as input and abstracts its state to window + open flags per stream; that abstraction "
                   "is validated by the lock-step comparison only. Hypothesis of the theorems (Good): HttpStream hands over, "
@@ -318,7 +322,33 @@ class Check(PropertyCheck):
             elif r < 0.415: ops.append([rng.pick(["sx", "sg"])])
             if rng.chance(0.3): ops.append(["sf", rng.randint(1, 4), rng.getrandbits(16)])
         return {"kind": "layer", "n": n, "ops": ops, "stream": 1 if rng.chance(0.5) else 0,
-                "s_maxc": s_maxc, "s_iws": s_iws, "c_iws": c_iws, "drain": 1 if rng.chance(0.9) else 0}
+                "s_maxc": s_maxc, "s_iws": s_iws, "c_iws": c_iws,
+                "drain": rng.weighted([(6, 1), (3, 2 if s_maxc else 1), (1, 0)])}
+
+    def gen_cancel(self, rng):
+        """under a small announced MAX_CONCURRENT_STREAMS: streams are opened upstream and then cancelled by the client (the
+        proxy resets them upstream itself), at least as many as the limit; then further streams are opened. The limit is
+        never raised: every later stream has to get through as slots become free."""
+        limit = rng.randint(1, 3)
+        cancels = rng.randint(limit, limit + 2)
+        later = rng.randint(1, 3)
+        st = 1 if rng.chance(0.7) else 0
+        ops = [["ch", 0, 1], ["cf", 1, 1], ["sf", 1, 1], ["cf", 1, 2]]       # the connection exists, the limit is known
+        if rng.chance(0.5): ops += [["sa", 0, 1, 3, False], ["sf", 1, 3]]
+        i = 1
+        for _ in range(cancels):
+            ops += [["ch", i, 0]]
+            if rng.chance(0.6): ops += [["cd", i, rng.randint(1, 20), 0]]
+            if not st: ops += [["cd", i, 2, 1]]              # buffered mode: the request must be complete to go upstream
+            ops += [["cf", rng.randint(1, 3), rng.getrandbits(16)], ["sf", 1, rng.getrandbits(16)], ["cr", i], ["cf", 1, rng.getrandbits(16)]]
+            if rng.chance(0.3): ops += [["sf", rng.randint(1, 2), rng.getrandbits(16)]]
+            i += 1
+        for _ in range(later):
+            ops += [["ch", i, 0], ["cd", i, rng.randint(1, 30), 1]]
+            if rng.chance(0.5): ops += [["cf", rng.randint(1, 3), rng.getrandbits(16)]]
+            i += 1
+        ops += [["cf", 1, rng.getrandbits(16)], ["sf", 1, rng.getrandbits(16)]]
+        return {"kind": "layer", "n": i, "ops": ops, "stream": st, "s_maxc": limit, "s_iws": None, "c_iws": None, "drain": 2}
 
     def gen_buf(self, rng):
         ns = rng.randint(1, 3)
@@ -349,7 +379,8 @@ class Check(PropertyCheck):
 
     def generate(self, rng, tier):
         while True:
-            yield self.gen_layer(rng) if rng.chance(0.7) else self.gen_buf(rng)
+            r = rng.random()
+            yield self.gen_layer(rng) if r < 0.6 else (self.gen_cancel(rng) if r < 0.72 else self.gen_buf(rng))
 
     # ---------------------------------------------------------------- implementation runner: buf
     def impl_buf(self, case):
@@ -668,7 +699,7 @@ class Check(PropertyCheck):
                             finish(p, sid) if key(p, sid) in answered and r.ended else None
                             p.grant(2 ** 16, sid)
                         p.grant(2 ** 18)
-                        if rnd == 2: p.advertise({SC.MAX_CONCURRENT_STREAMS: 100})
+                        if rnd == 2 and case.get("drain", 1) == 1: p.advertise({SC.MAX_CONCURRENT_STREAMS: 100})
                         d = p.take()
                         if d: w.recv(lab, d)
                     # later connections (opened after the first one died) get a plain answer too
@@ -684,6 +715,11 @@ class Check(PropertyCheck):
                 rig.pump_out()
         # ---- observables
         labs = w.server_labels()
+        slots = None
+        if labs and not dead["server"]:
+            p0 = rig.speer(labs[0])
+            # what the PEER knows: the limit it announced and had acknowledged, and the streams it still considers open
+            slots = {"limit": p0.maxc, "open": p0.c.open_inbound_streams, "pending_settings": len(p0.pending)}
         ups = []
         for lab in labs:
             p = rig.speer(lab)
@@ -700,7 +736,7 @@ class Check(PropertyCheck):
                 "answered": {str(k): {**{kk: vv for kk, vv in v.items() if kk != "body"}, "body_hex": hx(v["body"])} for k, v in answered.items()},
                 "ups": ups, "client": client, "client_failure": cp.failure, "client_terminated": cp.terminated, "client_violations": list(cp.violations),
                 "fins": {str(op[1]): op[2] for op in case["ops"] if op[0] == "ch"},
-                "flows": flows, "crash": [e[0] + ": " + e[1][:100] for e in w.errors], "dead": dead["server"],
+                "flows": flows, "crash": [e[0] + ": " + e[1][:100] for e in w.errors], "dead": dead["server"], "slots": slots,
                 "tap": [{"in": r["in"], "bytes_hex": hx(r["bytes"]), "ups": r["ups"], "q": r["q"], "m": r["m"], "o": r["o"], "b": r["b"],
                          "closed": r["closed"], "exc": r["exc"]} for r in log],
                 "nclients": len(TAP["clients"]), "drained": bool(case.get("drain", 1))}
@@ -801,13 +837,26 @@ class Check(PropertyCheck):
                         fails.append(f"client stream {xid} received a response (x-resp {j}) that was not given to its request")
                     elif not unhx(a["body_hex"]).startswith(unhx(c["body_hex"])):
                         fails.append(f"client stream {xid} received body bytes that are not from its response")
+        # "opened only while the server's concurrency limit allows; streams waiting for capacity are opened ...": a
+        # complete request must not be left waiting while the server — by its own count of open streams against the limit
+        # it announced — has a free slot (everything has been delivered both ways at this point)
+        sl = obs.get("slots")
+        if obs["drained"] and sl and not sl["pending_settings"] and not obs["crash"] and len(obs["ups"]) == 1:
+            waiting = [i for i, s in sent.items() if s["headers"] and s["ended"] and not s["reset"] and i not in seen
+                       and not ((obs["client"].get(str(2 * i + 1)) or {}).get("headers") or (obs["client"].get(str(2 * i + 1)) or {}).get("reset") is not None)]
+            free = sl["limit"] is None or sl["open"] < sl["limit"]
+            if waiting and free and obs["client_terminated"] is None:
+                fails.append(f"client streams {waiting} are still waiting although the server has a free slot "
+                             f"({sl['open']} open, MAX_CONCURRENT_STREAMS={sl['limit']})")
         # none lost: a request that was completely delivered is, after the drain, either opened upstream or failed
         if obs["drained"]:
             for i, s in sent.items():
                 if not (s["headers"] and s["ended"]) or s["reset"]: continue
                 c = obs["client"].get(str(2 * i + 1))
                 answered_somehow = c is not None and (c["headers"] is not None or c["reset"] is not None)
-                if i not in seen and not answered_somehow and obs["client_terminated"] is None:
+                # (a stream may keep waiting only while the server, by its own count, has no free slot)
+                no_slot = sl is not None and sl["limit"] is not None and sl["open"] >= sl["limit"]
+                if i not in seen and not answered_somehow and obs["client_terminated"] is None and not no_slot:
                     fails.append(f"client stream {i} was neither opened upstream nor answered (lost)")
                 if i in seen and not answered_somehow and obs["client_terminated"] is None and not obs["crash"]:
                     fails.append(f"client stream {i} was opened upstream but never answered nor failed")
@@ -886,6 +935,8 @@ class Check(PropertyCheck):
         if any(len(r["q"]) > 1 for r in obs["tap"]): out.append("layer:queue>=2")
         if any(r["b"] for r in obs["tap"]): out.append("layer:send-buffered")
         if obs["dead"]: out.append("layer:upstream-closed")
+        if case.get("drain") == 2: out.append("layer:limit-kept-small")
+        if any(s["reset"] for s in obs["sent"].values()) and case.get("s_maxc"): out.append("layer:cancelled-under-limit")
         if obs["nclients"] > 1: out.append("layer:second-upstream-connection")
         if any(s["reset"] for s in obs["sent"].values()): out.append("layer:client-reset")
         if any(a["reset"] for a in obs["answered"].values()): out.append("layer:server-reset")
